@@ -83,8 +83,32 @@ def sigtag(kind, tag):
     return "C17|%s|%s" % (kind, tag)
 
 
+def render_spaced(prog):
+    """the program with a blank at EVERY token boundary where one is allowed
+    (model R's notion of a breakable boundary): 'intent ( in )', 'a ( i ) = 1'"""
+    from mc import layout
+
+    lines = []
+    for s, d in zip(prog, G.depths(prog)):
+        if s.kind == "program_anon":
+            continue
+        toks = layout.stmt_toks(s)
+        is_fmt = any(x.kind == "id" and x.text.lower() == "format" for x in toks[:2])
+        out = toks[0].text
+        for j in range(1, len(toks)):
+            out += (" " if layout._breakable(toks, j, is_fmt) else toks[j].pre) + toks[j].text
+        lines.append(" " * (1 + 2 * d) + out)
+    return "\n".join(lines) + "\n"
+
+
 def check_case(res, cid, prog, tag):
-    src = G.render(prog)
+    _check_src(res, cid, prog, tag, G.render(prog))
+    if cid.startswith(("A/", "S/")):
+        # statement-level layers once more with blanks at every token boundary
+        _check_src(res, cid + "spaced/", prog, tag + "|spaced", render_spaced(prog))
+
+
+def _check_src(res, cid, prog, tag, src):
     only08 = any(s.std == "f2008" for s in prog)
     if not only08 and any(s.std == "f2008x" for s in prog):
         return  # f2003 behaviour not constrained by the model (extensions)
@@ -101,7 +125,7 @@ def check_case(res, cid, prog, tag):
     if only08:
         res.counters["f2008_only_programs"] += 1
     if kind:
-        res.violation(sigtag(kind, tag), "%s\n%s\n--- source:\n%s" % (cid, detail, src), {"src": src, "only08": only08, "cid": cid}, cost=len(src))
+        res.violation(sigtag(kind, tag), "%s\n%s\n--- source:\n%s" % (cid, detail, src), {"src": src, "only08": only08, "cid": cid, "tag": tag}, cost=len(src))
 
 
 # F2008-only statements/constructs placed in every construct context (d <= 2)
@@ -168,5 +192,5 @@ def run(task):
 def replay(case):
     kind, detail, o = judge(case["src"], case["only08"], uses_08_name(case["src"]))
     if kind:
-        return [{"sig": sigtag(kind, scenarios.feature_tag(case["cid"])), "detail": detail}]
+        return [{"sig": sigtag(kind, case.get("tag") or scenarios.feature_tag(case["cid"])), "detail": detail}]
     return []
